@@ -35,6 +35,7 @@ extern "C" {
 
 #define CO_SDO_RD               1             /*!< Object read access        */
 #define CO_SDO_WR               2             /*!< Object write access       */
+#define CO_SDO_SIZED            4             /*!< flag: transfer size is indicated */
 
 /******************************************************************************
 * PUBLIC TYPES
@@ -263,6 +264,17 @@ CO_ERR COSdoDownloadExpedited(CO_SDO *srv);
 *    The error code to be inserted in the data bytes #4..#7
 */
 void COSdoAbort(CO_SDO *srv, uint32_t err);
+
+/*! \brief  ABORT PROTOCOL FOR A REFUSED WRITE ACCESS
+*
+*    This function generates the abort frame with the code of the error,
+*    which the written object entry has reported.
+*
+* \param srv    Pointer to SDO server object
+* \param err    The error of the object entry
+* \param other  The SDO abort code for any other error
+*/
+void COSdoAbortWrite(CO_SDO *srv, CO_ERR err, uint32_t other);
 
 /*! \brief  INIT SEGMENTED UPLOAD
 *
